@@ -52,8 +52,8 @@ def fingerprint(obj, skip_pitch=False, natural_is_none=False):
     if isinstance(obj, pf.Performance):
         return ("Performance", obj.id, [fingerprint(p) for p in obj.performedparts])
     if isinstance(obj, pf.PerformedPart):
-        return ("PerformedPart", obj.id, obj.part_name, [sorted((k, _val(v, {})) for k, v in dict(n).items()) for n in obj.notes],
-                [sorted(c.items()) for c in obj.controls], [sorted(p.items()) for p in obj.programs],
+        return ("PerformedPart", obj.id, obj.part_name, [sorted(((k, _val(v, {})) for k, v in dict(n).items()), key=repr) for n in obj.notes],
+                [sorted(c.items(), key=repr) for c in obj.controls], [sorted(p.items(), key=repr) for p in obj.programs],
                 obj.ppq, obj.mpq, obj.sustain_pedal_threshold)
     if isinstance(obj, (list, tuple)):
         return [fingerprint(x, skip_pitch) for x in obj]
